@@ -149,8 +149,15 @@ def explore(I, H, jobs=16, max_paths=2000000, time_budget=3600, keep_summaries=4
     warm_until = t0 + (warm_s if jobs > 1 else float('inf'))
     pending = []
     stats_seen = {}
+    progress = os.environ.get('MIRSYM_PROGRESS')
+    last_report = t0
     try:
         while queue or pending:
+            if progress and time.time() - last_report > 60:
+                last_report = time.time()
+                import sys
+                print('[mirsym %s] %.0fs paths=%d frontier=%d failures=%d' % (type(H).__name__, last_report - t0, ex.paths, len(queue) + len(pending),
+                                                                            sum(ex.nfail.values())), file=sys.stderr, flush=True)
             if time.time() - t0 > time_budget or ex.paths >= max_paths:
                 ex.incomplete = 'budget exhausted (%.0fs, %d paths) with %d prefixes left' % (
                     time.time() - t0, ex.paths, len(queue) + len(pending))
